@@ -429,36 +429,7 @@ def run(ctx):
     ctx.add("R04.3", "C04/lc-public-key-is-49-bytes", not probs, "; ".join(sorted(set(probs))), site_of(f3) if f3 else None, {"contexts": [c[0] for c in cx]})
     ctx.sample({"sites": nsite, "entries": entries, "contexts": sum(len(v) for v in h.runs.values())})
 
-def root_of(f, operand, depth=0):
-    """Follows `x = &y`, `x = &(*y)`, `x = copy/move y`, unsize casts back to the local that owns the bytes,
-    or to the call that produced the reference. Returns (local or None, callee path or None)."""
-    pl = operand.get("copy") or operand.get("move") if isinstance(operand, dict) else None
-    if pl is None or depth > 12:
-        return None, None
-    l = pl["l"]
-    defs = []
-    for b in f["body"]["blocks"]:
-        for st in b["stmts"]:
-            if st["k"] == "assign" and st["place"]["l"] == l and not st["place"]["p"]:
-                defs.append(("stmt", st["rv"]))
-        t = b["term"]
-        if t["k"] == "call" and t.get("dest") and t["dest"]["l"] == l and not t["dest"]["p"]:
-            defs.append(("call", t))
-    if len(defs) != 1:
-        return (l, None) if not defs or l <= f["body"]["argc"] else (l, None)
-    kind, d = defs[0]
-    if kind == "call":
-        return None, (d.get("callee") or {}).get("path")
-    if d["k"] in ("ref", "rawptr"):
-        p2 = d["place"]
-        if not p2["p"]:
-            return p2["l"], None
-        if p2["p"] == ["*"]:
-            return root_of(f, {"copy": {"l": p2["l"], "p": []}}, depth + 1)
-        return p2["l"], None
-    if d["k"] == "use" or d["k"] == "cast":
-        return root_of(f, d["op"], depth + 1)
-    return l, None
+from cfg import root_of
 
 UNSAFE_STD = re.compile(r"(from_utf8_unchecked|get_unchecked|unwrap_unchecked|unreachable_unchecked|assume_init|from_raw_parts|from_raw|set_len|"
                         r"::ptr::(mut_ptr|const_ptr)::<impl \*(mut|const) T>::(add|sub|offset|read|write|copy_from|copy_to)|::ptr::(read|write|copy|copy_nonoverlapping)|transmute|"
